@@ -72,6 +72,10 @@ func vMkApp(key string, setA, setX *string, seenA, seenB, seenX *string) *fiber.
 		c.Cookie(&fiber.Cookie{Name: "x", Value: *setX})
 		// a name that differs from the excepted one only in letter case is a different cookie
 		c.Cookie(&fiber.Cookie{Name: "X", Value: "capx"})
+		if vSetFails {
+			// cookies set before a handler fails are still response cookies
+			return fiber.NewError(fiber.StatusForbidden, "denied")
+		}
 		return nil
 	})
 	app.Get("/get", func(c fiber.Ctx) error {
@@ -85,6 +89,7 @@ func vMkApp(key string, setA, setX *string, seenA, seenB, seenX *string) *fiber.
 }
 
 var vSeenCapX string
+var vSetFails bool
 
 func vRespCookie(fctx *fasthttp.RequestCtx, name string) string {
 	var ck fasthttp.Cookie
@@ -117,7 +122,8 @@ func VH_C20_cookies(caseID int) {
 	var seenA, seenB, seenX string
 	app := vMkApp(key, &plain, &xval, &seenA, &seenB, &seenX)
 
-	// 1. the server issues the cookies
+	// 1. the server issues the cookies (the issuing handler may end with an error)
+	vSetFails = vChoice("setfails", 2) == 1
 	f1 := &fasthttp.RequestCtx{}
 	f1.Request.Header.SetMethod("GET")
 	f1.Request.SetRequestURI("/set")
